@@ -530,7 +530,25 @@ class _SimPath(object):
     split = staticmethod(posixpath.split)
     splitext = staticmethod(posixpath.splitext)
     normpath = staticmethod(posixpath.normpath)
+    splitdrive = staticmethod(posixpath.splitdrive)
+    commonprefix = staticmethod(posixpath.commonprefix)
+    commonpath = staticmethod(posixpath.commonpath)
+    expanduser = staticmethod(lambda p: p)
+    expandvars = staticmethod(lambda p: p)
     sep = "/"
+    altsep = None
+    extsep = "."
+    pardir = ".."
+    curdir = "."
+
+    def realpath(self, path, **kwargs):
+        return self._fs.norm(path)
+
+    def relpath(self, path, start=None):
+        return posixpath.relpath(self._fs.norm(path), self._fs.norm(start or "."))
+
+    def samefile(self, a, b):
+        return self._fs.norm(a) == self._fs.norm(b)
 
     def abspath(self, path):
         return self._fs.norm(path)
